@@ -17,6 +17,7 @@ mod elixir;
 mod serde_dom;
 mod conn;
 mod node;
+mod gsrv;
 pub fn conn_flags() -> u64 {
     0xdf7fbd | (1 << 32) | (1 << 34) | (1 << 35)
 }
@@ -43,6 +44,7 @@ fn main() {
         "conn" => conn::run_case,
         "hsk" => conn::run_hsk,
         "node" => node::run_case,
+        "gsrv" => gsrv::run_case,
         _ => {
             eprintln!("unknown domain {domain}");
             std::process::exit(2);
